@@ -61,6 +61,8 @@ type interpreter struct {
 	natives            map[string]value
 	branches           int64
 	recent             []string
+	noIfconv           bool
+	qlzBoth            bool
 	exactFmt           bool // format symbolic integers exactly (forks over their values)
 }
 
@@ -85,6 +87,7 @@ type frame struct {
 	panicking        bool
 	panic            interface{}
 	phitemps         []value // temporaries for parallel phi assignment
+	skipPhis         bool    // phis of the next block were already assigned (if-conversion)
 }
 
 func (fr *frame) get(key ssa.Value) value {
@@ -245,8 +248,11 @@ func visitInstr(fr *frame, instr ssa.Instruction) continuation {
 		case bool:
 			taken = c
 		case sv:
+			if k, ok := fr.tryIfconv(instr, c); ok {
+				return k
+			}
 			fr.i.branches++
-			taken = fr.i.ctx.branch(c.t, "if")
+			taken = fr.i.ctx.branch(c.t, fr.fn.Name())
 		}
 		if taken {
 			succ = 0
@@ -623,6 +629,10 @@ func executePhis(fr *frame) []ssa.Instruction {
 	// Inv: 0 <= firstNonPhi; every block contains a non-phi.
 
 	nonPhis := fr.block.Instrs[firstNonPhi:]
+	if fr.skipPhis {
+		fr.skipPhis = false
+		return nonPhis
+	}
 	if firstNonPhi > 0 {
 		phis := fr.block.Instrs[:firstNonPhi]
 		// Execute parallel assignment of phis.
